@@ -225,16 +225,22 @@ def outcome(obj, X, feats, Xnew=None):
     return json.loads(json.dumps(out))
 
 
-def fit_outcome(cls, sid, seed, feats, n_jobs, columns=None):
+def fit_outcome(cls, sid, seed, feats, n_jobs, columns=None, index=None):
     X, kinds, ranks = scenario(sid, seed)
     if columns is not None:
         X = X[list(columns)]
     y = target(cls, len(X))
+    if index is not None:  # row labels other than 0..n-1 (outcomes are compared by position)
+        n = len(X)
+        labels = [f"r{(7 * i) % n}" for i in range(n)] if index == "str" else [(7 * i + 3) % n for i in range(n)]
+        X, y = X.set_axis(labels, axis=0), y.set_axis(labels, axis=0)
     obj = build(cls, list(feats), kinds, ranks, n_jobs)
     obj.fit(X, y)
     Xnew = new_frame(sid, X)
     if Xnew is not None and columns is not None:
         Xnew = Xnew[list(columns)]
+    if Xnew is not None and index is not None:
+        Xnew = Xnew.set_axis(list(X.index)[::-1][: len(Xnew)], axis=0)
     return outcome(obj, X, list(feats), Xnew)
 
 
@@ -276,7 +282,7 @@ def run_case(case):
         rank = {f: r for f, r in zip(sorted(kinds), case.get("rank") or range(len(kinds)))}
         sched.reset(case["plan"], names=list(kinds), rank=rank)
         try:
-            got = fit_outcome(cls, sid, seed, feats, case.get("n_jobs", 2), case.get("columns"))
+            got = fit_outcome(cls, sid, seed, feats, case.get("n_jobs", 2), case.get("columns"), case.get("index"))
         finally:
             trace = list(sched.TRACE)
             sched.reset()
@@ -285,7 +291,7 @@ def run_case(case):
         res["outcome"] = f"{cls}:sched"
     else:  # plain: subsets / orderings / column orders, n_jobs=1, no seams
         sched.uninstall()
-        got = fit_outcome(cls, sid, seed, feats, 1, case.get("columns"))
+        got = fit_outcome(cls, sid, seed, feats, 1, case.get("columns"), case.get("index"))
         res["outcome"] = f"{cls}:{mode}"
     diffs = compare(got, ref, feats)
     for d in diffs[:2]:
@@ -335,6 +341,9 @@ def run(tier, seed, rep):
                     cases.append({"cls": cls, "sid": sid, "seed": seed, "mode": "subset", "feats": list(sub)})
                     if r >= 2:  # the same subset through the parallel code path (default schedule)
                         cases.append({"cls": cls, "sid": sid, "seed": seed, "mode": "plan", "plan": [], "n_jobs": 2, "feats": list(sub)})
+            for index in ("str", "shuffled"):  # row labels other than 0..n-1, sequential and through the pools
+                cases.append({"cls": cls, "sid": sid, "seed": seed, "mode": "subset", "feats": names, "index": index})
+                cases.append({"cls": cls, "sid": sid, "seed": seed, "mode": "plan", "plan": [], "n_jobs": 2, "feats": names, "index": index})
             for perm in itertools.permutations(names):
                 cases.append({"cls": cls, "sid": sid, "seed": seed, "mode": "list-order", "feats": list(perm)})
                 cases.append({"cls": cls, "sid": sid, "seed": seed, "mode": "column-order", "feats": names, "columns": list(perm)})
